@@ -21,9 +21,11 @@ type thread struct {
 	wake    chan int
 	done    bool
 	blocked func() bool // nil: runnable; else runnable when it returns true
+	what    string
 	name    string
-	dirty   bool  // made a visible state change since its last sleep
-	seenSeq int64 // visibleSeq at last sleep
+	dirty      bool  // made a visible state change since its last sleep
+	seenSeq    int64 // effective sequence number at its last wake-up
+	ownUnlocks int64 // own lock releases: they publish state to others, not to the thread itself
 }
 
 type mutexState struct {
@@ -222,7 +224,7 @@ func (ex *exec) describeBlocked() string {
 	s := "no runnable thread:"
 	for _, t := range ex.threads {
 		if !t.done {
-			s += fmt.Sprintf(" [t%d %s blocked]", t.id, t.name)
+			s += fmt.Sprintf(" [t%d %s blocked on %s]", t.id, t.name, t.what)
 		}
 	}
 	return s
@@ -261,6 +263,7 @@ func (ex *exec) block(cond func() bool, what string) {
 	}
 	cur := ex.cur
 	cur.blocked = cond
+	cur.what = what
 	for {
 		next := ex.pickNext(cur, false)
 		if next == nil {
@@ -286,19 +289,20 @@ func (ex *exec) sleep() {
 		return
 	}
 	cur := ex.cur
-	if ex.visibleSeq != cur.seenSeq {
-		// something changed since this thread last woke up (by itself or by others): the next
-		// iteration will look again; the sleep is still a switch point
+	eff := func() int64 { return ex.visibleSeq - cur.ownUnlocks }
+	if eff() != cur.seenSeq {
+		// something changed since this thread last woke up (own stores, or anything published by
+		// others): the next iteration will look again; the sleep is still a switch point
 		next := ex.pickNext(cur, true)
 		if next != cur {
 			ex.switchTo(cur, next, false)
 		}
-		cur.seenSeq = ex.visibleSeq
+		cur.seenSeq = eff()
 		return
 	}
 	seq := cur.seenSeq
-	ex.block(func() bool { return ex.visibleSeq != seq }, "time.Sleep in a poll loop with nothing left to change (livelock)")
-	cur.seenSeq = ex.visibleSeq
+	ex.block(func() bool { return eff() != seq }, "time.Sleep / poll interval with nothing left to change (livelock)")
+	cur.seenSeq = eff()
 }
 
 // killThreads ends all parked threads at the end of a path.
@@ -457,7 +461,7 @@ func (ex *exec) mutex(p *value) *mutexState {
 }
 
 func (ex *exec) lock(p *value, what string) {
-	ex.yieldK(true, ex.cfg.bounds["preempt_sync"] == 1)
+	ex.yieldK(false, ex.cfg.bounds["preempt_sync"] == 1)
 	m := ex.mutex(p)
 	if !ex.threaded() && (m.w || m.r > 0) {
 		panic(pathEnd{"deadlock", "self-deadlock: " + what + " while the same mutex is already held"})
@@ -469,6 +473,9 @@ func (ex *exec) lock(p *value, what string) {
 
 func (ex *exec) unlock(p *value) {
 	ex.yieldK(true, ex.cfg.bounds["preempt_sync"] == 1)
+	if ex.threaded() {
+		ex.cur.ownUnlocks++
+	}
 	m := ex.mutex(p)
 	if !m.w {
 		panic("fatal error: sync: unlock of unlocked mutex")
@@ -478,7 +485,7 @@ func (ex *exec) unlock(p *value) {
 }
 
 func (ex *exec) rlock(p *value, what string) {
-	ex.yieldK(true, ex.cfg.bounds["preempt_sync"] == 1)
+	ex.yieldK(false, ex.cfg.bounds["preempt_sync"] == 1)
 	m := ex.mutex(p)
 	if !ex.threaded() && m.w {
 		panic(pathEnd{"deadlock", "self-deadlock: " + what + " while the write lock is held"})
@@ -489,7 +496,7 @@ func (ex *exec) rlock(p *value, what string) {
 }
 
 func (ex *exec) runlock(p *value) {
-	ex.yieldK(true, ex.cfg.bounds["preempt_sync"] == 1)
+	ex.yieldK(false, ex.cfg.bounds["preempt_sync"] == 1)
 	m := ex.mutex(p)
 	if m.r <= 0 {
 		panic("fatal error: sync: RUnlock of unlocked RWMutex")
